@@ -87,9 +87,10 @@ const (
 	OpHarness
 	OpWG
 	OpStart
+	OpAfter
 )
 
-var OpNames = [...]string{"point", "Lock", "Unlock", "unlocked", "TryLock", "RLock", "RUnlock", "atomic", "select", "select-nb", "recv", "send", "close", "ctx.Err", "ctx.Done", "cancel", "go", "timer-arm", "timer-stop", "gate", "settle", "exit", "WithCancel", "harness", "waitgroup", "start"}
+var OpNames = [...]string{"point", "Lock", "Unlock", "unlocked", "TryLock", "RLock", "RUnlock", "atomic", "select", "select-nb", "recv", "send", "close", "ctx.Err", "ctx.Done", "cancel", "go", "timer-arm", "timer-stop", "gate", "settle", "exit", "WithCancel", "harness", "waitgroup", "start", "after"}
 
 type Case struct {
 	P    unsafe.Pointer
@@ -619,6 +620,7 @@ func Send[T any](ch chan<- T, v T) {
 		return
 	}
 	ch <- v
+	PointOp(OpAfter)
 }
 
 func Close[T any](ch chan<- T) {
@@ -627,6 +629,7 @@ func Close[T any](ch chan<- T) {
 		return
 	}
 	close(ch)
+	PointOp(OpAfter) // the code after a publishing close can be delayed
 }
 
 func CtxErr(c interface{ Err() error }) error {
